@@ -362,7 +362,7 @@ def force_awkward_strings(rng, tmpl, spec):
         for var in tb.variables:
             if var.type == MsgType.MVT_VARIABLE and (tmpl.name, bname, var.name) not in se.SUBFIELD_SERIALIZERS:
                 maxlen = gen_msg.var_max_len(var)
-                text_like = var.probably_text and not var.probably_binary
+                text_like = gen_msg.is_text_like(var)
                 for ent in entries:
                     r = rng.random()
                     if r < 0.25:
